@@ -230,6 +230,8 @@ class C03(Check):
     assumptions = ["frames whose L3/L4 header is truncated or malformed are compared model-vs-code only: the standard says nothing about them",
                    "VLAN-tagged 802.3/LLC frames (tag followed by a length field) are outside the frame generator",
                    "lookup with in_port given (rx_packet always passes one)",
+                   "matches_with_wildcards(consider_other_wildcards=False) on two FLOW matches is a correspondence-only observable (the switch evaluates it on packet matches only, "
+                   "whose MACs are always assigned): there the address class's EthAddr(zero) == None (probed) is mirrored on the model's input (a2), not in the model",
                    "hypotheses of matches_iff / history_lookup_wire at /repo HEAD: wildcarded dl_type/nw_proto fields are zero on the wire (D38), ToS values carry no ECN bits (D36), "
                    "ARP opcode <= 255 (D37), exact flows are IPv4 TCP/UDP/ICMP flows without any wildcard bit (D26); each excluded case is a listed finding with a `_defect` theorem, "
                    "and the `_v` theorems drop the hypothesis for the variant that has the corresponding repair",
